@@ -367,7 +367,7 @@ var (
 	c14start = time.Date(2019, 1, 1, 0, 0, 0, 0, time.UTC)
 	c14end   = time.Date(2019, 1, 2, 0, 0, 0, 0, time.UTC)
 	c14vals  = map[string]interface{}{"v": 2.5, "w": int64(3), "a": int64(1), "b": true, "i": int64(5),
-		"host": "a", "region": "x", "s": "str", "x": 1.5, "d": 3 * time.Second}
+		"host": "a", "region": "x", "s": "str", "x": 1.5, "d": 3 * time.Second, "u": uint64(7), "nilv": nil}
 )
 
 func c14valuer() influxql.Valuer {
@@ -401,6 +401,21 @@ func (c14mapper) MapType(m *influxql.Measurement, field string) influxql.DataTyp
 		return influxql.Tag
 	}
 	return influxql.Unknown
+}
+
+// CallType makes c14mapper a CallTypeMapper (TypeValuerEval.evalCallExprType).
+func (c14mapper) CallType(name string, args []influxql.DataType) (influxql.DataType, error) {
+	switch name {
+	case "mean", "percentile", "derivative", "moving_average":
+		return influxql.Float, nil
+	case "count", "elapsed":
+		return influxql.Integer, nil
+	case "min", "max", "sum", "first", "last", "top", "bottom", "distinct":
+		if len(args) > 0 {
+			return args[0], nil
+		}
+	}
+	return influxql.Unknown, nil
 }
 
 // c14modRewriter replaces every VarRef and StringLiteral by a new node (a modifying Rewriter).
@@ -467,16 +482,30 @@ func c14exprFn(e influxql.Expr) influxql.Expr {
 	return e
 }
 
+// c14dropFn removes constant terms: RewriteExpr then collapses the parent in place (e.LHS = nil; expr = e.RHS ...).
+func c14dropFn(e influxql.Expr) influxql.Expr {
+	if _, ok := e.(*influxql.BooleanLiteral); ok {
+		return nil
+	}
+	if c, ok := e.(*influxql.Call); ok && c.Name == "now" {
+		return nil
+	}
+	return e
+}
+
 var c14StmtRewrites = map[string]func(s *influxql.SelectStatement){
 	"RewriteRegexConditions": func(s *influxql.SelectStatement) { s.RewriteRegexConditions() },
 	"RewriteDistinct":        func(s *influxql.SelectStatement) { s.RewriteDistinct() },
 	"RewriteTimeFields":      func(s *influxql.SelectStatement) { s.RewriteTimeFields() },
 	"SetTimeRange":           func(s *influxql.SelectStatement) { _ = s.SetTimeRange(c14start, c14end) },
 	"RewriteMod":             func(s *influxql.SelectStatement) { influxql.Rewrite(c14modRewriter{}, s) },
-	"RewriteNop":             func(s *influxql.SelectStatement) { influxql.RewriteFunc(s, func(n influxql.Node) influxql.Node { return n }) },
-	"RewriteExprCond":        func(s *influxql.SelectStatement) { s.Condition = influxql.RewriteExpr(s.Condition, c14exprFn) },
-	"WalkMutateAll":          func(s *influxql.SelectStatement) { c14walkMutate(s) },
-	"ReverseFields":          func(s *influxql.SelectStatement) { sort.Sort(sort.Reverse(s.Fields)) },
+	"RewriteNop": func(s *influxql.SelectStatement) {
+		influxql.RewriteFunc(s, func(n influxql.Node) influxql.Node { return n })
+	},
+	"RewriteExprCond": func(s *influxql.SelectStatement) { s.Condition = influxql.RewriteExpr(s.Condition, c14exprFn) },
+	"RewriteExprDrop": func(s *influxql.SelectStatement) { s.Condition = influxql.RewriteExpr(s.Condition, c14dropFn) },
+	"WalkMutateAll":   func(s *influxql.SelectStatement) { c14walkMutate(s) },
+	"ReverseFields":   func(s *influxql.SelectStatement) { sort.Sort(sort.Reverse(s.Fields)) },
 	// what the query engine does to a parsed statement before cloning it: the flags the parser never sets
 	"EngineFlags": func(s *influxql.SelectStatement) {
 		s.OmitTime, s.StripName, s.EmitName, s.Dedupe = true, true, "emit", true
@@ -492,100 +521,173 @@ var c14StmtRewrites = map[string]func(s *influxql.SelectStatement){
 }
 
 var c14ExprRewrites = map[string]func(r *c14root){
-	"RewriteExpr":   func(r *c14root) { r.E = influxql.RewriteExpr(r.E, c14exprFn) },
-	"RewriteMod":    func(r *c14root) { r.E = influxql.Rewrite(c14modRewriter{}, r.E).(influxql.Expr) },
-	"RewriteNop":    func(r *c14root) { influxql.RewriteFunc(r.E, func(n influxql.Node) influxql.Node { return n }) },
-	"WalkMutateAll": func(r *c14root) { c14walkMutate(r.E) },
+	"RewriteExpr":     func(r *c14root) { r.E = influxql.RewriteExpr(r.E, c14exprFn) },
+	"RewriteExprDrop": func(r *c14root) { r.E = influxql.RewriteExpr(r.E, c14dropFn) },
+	"RewriteMod":      func(r *c14root) { r.E = influxql.Rewrite(c14modRewriter{}, r.E).(influxql.Expr) },
+	"RewriteNop":      func(r *c14root) { influxql.RewriteFunc(r.E, func(n influxql.Node) influxql.Node { return n }) },
+	"WalkMutateAll":   func(r *c14root) { c14walkMutate(r.E) },
 }
 
 // c14use swallows results: derived operations are run for their side effects on the receiver (there should be none).
 func c14use(x ...interface{}) {}
 
-var c14StmtDerived = map[string]func(s *influxql.SelectStatement){
-	"Reduce":    func(s *influxql.SelectStatement) { c14use(s.Reduce(c14valuer())) },
-	"ReduceNil": func(s *influxql.SelectStatement) { c14use(s.Reduce(nil)) },
-	"RewriteFields": func(s *influxql.SelectStatement) {
+// c14differs: the result of a derived operation is structurally different from what it was computed from, i.e.
+// the operation had something to do on this input and an in-place implementation would have shown in the receiver.
+// This is a vacuity measure ("act" in the step record), never a verdict.
+func c14differs(in, out interface{}) bool {
+	a, _ := json.Marshal(snapshot(in))
+	b, _ := json.Marshal(snapshot(out))
+	return string(a) != string(b)
+}
+
+func c14zoneValuer(loc *time.Location) influxql.Valuer {
+	if loc == nil {
+		loc, _ = time.LoadLocation("America/Chicago")
+	}
+	return influxql.MultiValuer(&influxql.NowValuer{Now: c14now, Location: loc}, influxql.MapValuer(c14vals))
+}
+
+// c14eachStmt calls f on s and on every sub-query statement below it (they are part of the receiver's tree).
+func c14eachStmt(s *influxql.SelectStatement, f func(*influxql.SelectStatement)) {
+	f(s)
+	for _, src := range s.Sources {
+		if q, ok := src.(*influxql.SubQuery); ok && q.Statement != nil {
+			c14eachStmt(q.Statement, f)
+		}
+	}
+}
+
+func c14condExpr(e influxql.Expr, loc *time.Location) (act bool) {
+	for _, v := range []influxql.Valuer{c14valuer(), c14zoneValuer(loc), nil} {
+		x, tr, err := influxql.ConditionExpr(e, v)
+		c14use(err)
+		if !tr.Min.IsZero() || !tr.Max.IsZero() || (e != nil && err == nil && (x == nil || c14differs(e, x))) {
+			act = true
+		}
+	}
+	return act
+}
+
+// derived operations return "act": the operation had an effect to show on this input (see c14differs)
+var c14StmtDerived = map[string]func(s *influxql.SelectStatement) bool{
+	"Reduce":     func(s *influxql.SelectStatement) bool { return c14differs(s, s.Reduce(c14valuer())) },
+	"ReduceNil":  func(s *influxql.SelectStatement) bool { return c14differs(s, s.Reduce(nil)) },
+	"ReduceZone": func(s *influxql.SelectStatement) bool { return c14differs(s, s.Reduce(c14zoneValuer(s.Location))) },
+	"RewriteFields": func(s *influxql.SelectStatement) bool {
 		o, err := s.RewriteFields(c14mapper{})
-		c14use(o, err)
+		return err == nil && c14differs(s, o)
 	},
-	"EvalCond": func(s *influxql.SelectStatement) {
-		c14use(influxql.Eval(s.Condition, c14vals), influxql.EvalBool(s.Condition, c14vals))
-		ev := influxql.ValuerEval{Valuer: c14valuer(), IntegerFloatDivision: true}
-		for _, f := range s.Fields {
-			c14use(ev.Eval(f.Expr))
-		}
+	"EvalCond": func(s *influxql.SelectStatement) bool {
+		c14eachStmt(s, func(s *influxql.SelectStatement) {
+			c14use(influxql.Eval(s.Condition, c14vals), influxql.EvalBool(s.Condition, c14vals))
+			ev := influxql.ValuerEval{Valuer: c14valuer(), IntegerFloatDivision: true}
+			c14use(ev.Eval(s.Condition))
+			for _, f := range s.Fields {
+				c14use(ev.Eval(f.Expr))
+			}
+		})
+		return s.Condition != nil
 	},
-	"EvalType": func(s *influxql.SelectStatement) {
-		tv := influxql.TypeValuerEval{TypeMapper: c14mapper{}, Sources: s.Sources}
-		for _, f := range s.Fields {
-			c14use(influxql.EvalType(f.Expr, s.Sources, c14mapper{}))
-			t, err := tv.EvalType(f.Expr)
-			c14use(t, err)
-		}
-		c14use(influxql.EvalType(s.Condition, s.Sources, c14mapper{}))
+	"EvalType": func(s *influxql.SelectStatement) bool {
+		c14eachStmt(s, func(s *influxql.SelectStatement) {
+			tv := influxql.TypeValuerEval{TypeMapper: c14mapper{}, Sources: s.Sources}
+			for _, f := range s.Fields {
+				c14use(influxql.EvalType(f.Expr, s.Sources, c14mapper{}))
+				t, err := tv.EvalType(f.Expr)
+				c14use(t, err)
+			}
+			c14use(influxql.EvalType(s.Condition, s.Sources, c14mapper{}))
+		})
+		return true
 	},
-	"String": func(s *influxql.SelectStatement) {
+	"String": func(s *influxql.SelectStatement) bool {
 		c14use(s.String(), s.Fields.String(), s.Sources.String(), s.Dimensions.String(), s.SortFields.String(), s.Target.String())
 		if s.Condition != nil {
 			c14use(s.Condition.String())
 		}
+		return true
 	},
-	"ColumnNames": func(s *influxql.SelectStatement) { c14use(s.ColumnNames()) },
-	"RequiredPrivileges": func(s *influxql.SelectStatement) {
-		p, err := s.RequiredPrivileges()
-		c14use(p, err)
-		p, err = s.Sources.RequiredPrivileges()
-		c14use(p, err)
+	"ColumnNames": func(s *influxql.SelectStatement) bool {
+		c14eachStmt(s, func(s *influxql.SelectStatement) { c14use(s.ColumnNames()) })
+		return true
 	},
-	"Names": func(s *influxql.SelectStatement) {
-		names := s.Fields.Names()
-		names = append(names, s.Fields.AliasNames()...)
-		for _, n := range append(names, "time", "nosuch") {
-			i, e := s.FieldExprByName(n)
-			c14use(i, e)
-		}
-		for _, f := range s.Fields {
-			c14use(f.Name(), influxql.ExprNames(f.Expr))
-		}
-		c14use(s.TimeFieldName(), s.TimeAscending(), s.HasWildcard(), s.HasFieldWildcard(), s.HasDimensionWildcard(),
-			influxql.ExprNames(s.Condition), s.Sources.Measurements(), influxql.HasTimeExpr(s.Condition))
+	"RequiredPrivileges": func(s *influxql.SelectStatement) bool {
+		c14eachStmt(s, func(s *influxql.SelectStatement) {
+			p, err := s.RequiredPrivileges()
+			c14use(p, err)
+			p, err = s.Sources.RequiredPrivileges()
+			c14use(p, err)
+		})
+		return true
 	},
-	"ConditionExpr": func(s *influxql.SelectStatement) {
-		e, tr, err := influxql.ConditionExpr(s.Condition, c14valuer())
-		c14use(e, tr, err)
+	"Names": func(s *influxql.SelectStatement) bool {
+		c14eachStmt(s, func(s *influxql.SelectStatement) {
+			names := s.Fields.Names()
+			names = append(names, s.Fields.AliasNames()...)
+			for _, f := range s.Fields {
+				for _, r := range influxql.ExprNames(f.Expr) {
+					names = append(names, r.Val)
+				}
+				influxql.WalkFunc(f.Expr, func(n influxql.Node) {
+					if r, ok := n.(*influxql.VarRef); ok {
+						names = append(names, r.Val)
+					}
+				})
+			}
+			for _, n := range append(names, "time", "nosuch") {
+				i, e := s.FieldExprByName(n)
+				c14use(i, e)
+			}
+			for _, f := range s.Fields {
+				c14use(f.Name(), influxql.ExprNames(f.Expr))
+			}
+			dur, tags := time.Duration(0), []string(nil)
+			c14use(guard(func() { dur, tags = s.Dimensions.Normalize() }), dur, tags)
+			c14use(s.TimeFieldName(), s.TimeAscending(), s.HasWildcard(), s.HasFieldWildcard(), s.HasDimensionWildcard(),
+				influxql.ExprNames(s.Condition), s.Sources.Measurements(), influxql.HasTimeExpr(s.Condition))
+		})
+		return true
+	},
+	"ConditionExpr": func(s *influxql.SelectStatement) bool {
+		act := false
+		c14eachStmt(s, func(s *influxql.SelectStatement) { act = c14condExpr(s.Condition, s.Location) || act })
+		return act
 	},
 }
 
-var c14ExprDerived = map[string]func(e influxql.Expr){
-	"Reduce":    func(e influxql.Expr) { c14use(influxql.Reduce(e, c14valuer())) },
-	"ReduceNil": func(e influxql.Expr) { c14use(influxql.Reduce(e, nil)) },
-	"Eval": func(e influxql.Expr) {
+var c14ExprDerived = map[string]func(e influxql.Expr) bool{
+	"Reduce":     func(e influxql.Expr) bool { return c14differs(e, influxql.Reduce(e, c14valuer())) },
+	"ReduceNil":  func(e influxql.Expr) bool { return c14differs(e, influxql.Reduce(e, nil)) },
+	"ReduceZone": func(e influxql.Expr) bool { return c14differs(e, influxql.Reduce(e, c14zoneValuer(nil))) },
+	"Eval": func(e influxql.Expr) bool {
 		c14use(influxql.Eval(e, c14vals), influxql.EvalBool(e, c14vals))
 		ev := influxql.ValuerEval{Valuer: c14valuer(), IntegerFloatDivision: true}
 		c14use(ev.Eval(e), ev.EvalBool(e))
+		ev2 := influxql.ValuerEval{Valuer: c14zoneValuer(nil)}
+		c14use(ev2.Eval(e))
+		return true
 	},
-	"EvalType": func(e influxql.Expr) {
+	"EvalType": func(e influxql.Expr) bool {
 		c14use(influxql.EvalType(e, nil, c14mapper{}))
 		tv := influxql.TypeValuerEval{TypeMapper: c14mapper{}, Sources: influxql.Sources{&influxql.Measurement{Name: "m"}}}
 		t, err := tv.EvalType(e)
 		c14use(t, err)
+		return true
 	},
-	"String": func(e influxql.Expr) { c14use(e.String()) },
-	"Names": func(e influxql.Expr) {
+	"String": func(e influxql.Expr) bool { c14use(e.String()); return true },
+	"Names": func(e influxql.Expr) bool {
 		c14use(influxql.ExprNames(e), influxql.HasTimeExpr(e), influxql.ContainsVarRef(e))
 		if b, ok := e.(*influxql.BinaryExpr); ok {
 			c14use(influxql.BinaryExprName(b))
 		}
-		c14use((&influxql.Field{Expr: e}).Name())
+		c14use((&influxql.Field{Expr: e}).Name(), influxql.Fields{&influxql.Field{Expr: e}}.Names())
+		return true
 	},
-	"ConditionExpr": func(e influxql.Expr) {
-		x, tr, err := influxql.ConditionExpr(e, c14valuer())
-		c14use(x, tr, err)
-	},
+	"ConditionExpr": func(e influxql.Expr) bool { return c14condExpr(e, nil) },
 }
 
 // c14applyOp runs a rewrite or derived operation on r; ok=false when the name is unknown.
-func c14applyOp(r *c14root, a, op string) (panicked string, ok bool) {
+func c14applyOp(r *c14root, a, op string) (panicked string, act bool, ok bool) {
 	var f func()
 	if r.isStmt() {
 		if a == "rewrite" {
@@ -593,7 +695,7 @@ func c14applyOp(r *c14root, a, op string) (panicked string, ok bool) {
 				f = func() { g(r.S) }
 			}
 		} else if g := c14StmtDerived[op]; g != nil {
-			f = func() { g(r.S) }
+			f = func() { act = g(r.S) }
 		}
 	} else {
 		if a == "rewrite" {
@@ -601,13 +703,14 @@ func c14applyOp(r *c14root, a, op string) (panicked string, ok bool) {
 				f = func() { g(r) }
 			}
 		} else if g := c14ExprDerived[op]; g != nil {
-			f = func() { g(r.E) }
+			f = func() { act = g(r.E) }
 		}
 	}
 	if f == nil {
-		return "", false
+		return "", false, false
 	}
-	return guard(f), true
+	p := guard(f)
+	return p, act, true
 }
 
 var c14Pres = []string{"none", "GroupByInterval", "RewriteRegexConditions", "RewriteDistinct", "RewriteTimeFields", "SetTimeRange", "EngineFlags"}
@@ -634,7 +737,7 @@ func init() {
 		for _, pre := range pres {
 			r, _ := c14parse(kind, text)
 			if pre != "none" {
-				if p, _ := c14applyOp(r, "rewrite", pre); p != "" {
+				if p, _, _ := c14applyOp(r, "rewrite", pre); p != "" {
 					np[pre] = 0
 					eff[pre] = false
 					continue
@@ -673,7 +776,7 @@ func init() {
 			return o
 		}
 		if pre != "" && pre != "none" {
-			p, ok := c14applyOp(orig, "rewrite", pre)
+			p, _, ok := c14applyOp(orig, "rewrite", pre)
 			if !ok {
 				fatal("c14: unknown pre operation %q", pre)
 			}
@@ -720,9 +823,12 @@ func init() {
 				}
 			case "rewrite", "derived":
 				rec["op"] = op
-				p, ok := c14applyOp(r, a, op)
+				p, act, ok := c14applyOp(r, a, op)
 				if !ok {
 					fatal("c14: unknown %s operation %q for %s", a, op, kind)
+				}
+				if a == "derived" {
+					rec["act"] = act
 				}
 				if p != "" {
 					rec["panic"] = p
